@@ -454,3 +454,90 @@ Proof.
   destruct (connect_timeout_max_len_handler <? N.of_nat (length (b :: r))); [reflexivity|].
   rewrite H. reflexivity.
 Qed.
+
+(* ================= the timeout header over the life of a request header map ================= *)
+
+(* One client call made with a header map that may have been used before (a
+   *connect.Request sent again). Times are absolute nanoseconds. The stream is
+   created at [created] (NewConn), its request leaves at [sent_at] (the first
+   Send; for unary calls the two coincide).
+
+   NewConn: delete(header, timeout header)                         [client_timeout_cleared_in_new_conn]
+   onRequestSend, run once inside sendRequestOnce.Do before the
+   request is started: header := encode(deadline - now) if the
+   context has a deadline                                          [client_timeout_set_only_at_send,
+                                                                     duplex_on_request_send_inside_once]
+   The three facts are extracted from the source by the translator; were one of
+   them false the definitions below would compute what the code then does
+   (keep the old value / use the creation time). *)
+Record ccall := mkCcall {
+  c_grpc : bool;
+  c_deadline : option Z;
+  c_created : Z;
+  c_sent_at : Z
+}.
+
+Definition encode_remaining (grpc : bool) (remaining : Z) : option bytes :=
+  if grpc then grpc_encode_timeout remaining else connect_encode_timeout remaining.
+
+Definition call_header (before : option bytes) (c : ccall) : option bytes :=
+  let cleared := if client_timeout_cleared_in_new_conn then None else before in
+  let now := if client_timeout_set_only_at_send && duplex_on_request_send_inside_once
+             then c_sent_at c else c_created c in
+  match c_deadline c with
+  | None => cleared
+  | Some dl =>
+    match encode_remaining (c_grpc c) (dl - now) with
+    | Some s => Some s
+    | None => cleared
+    end
+  end.
+
+(* the header map is shared by the successive calls: what one call leaves is what the next finds *)
+Fixpoint run_calls (h : option bytes) (cs : list ccall) : list (option bytes) :=
+  match cs with
+  | [] => []
+  | c :: r => let h' := call_header h c in h' :: run_calls h' r
+  end.
+
+(* what a call announces is a function of that call alone *)
+Lemma call_header_fresh : forall h c, call_header h c = call_header None c.
+Proof. intros h c. unfold call_header. reflexivity. Qed.
+
+Lemma reuse_independent_lemma : forall cs h,
+  run_calls h cs = map (call_header None) cs.
+Proof.
+  induction cs as [|c r IH]; intro h; cbn [run_calls map]; [reflexivity|].
+  rewrite IH. rewrite (call_header_fresh h c). reflexivity.
+Qed.
+
+Lemma no_deadline_no_header_lemma : forall h c, c_deadline c = None -> call_header h c = None.
+Proof. intros h c H. unfold call_header. rewrite H. reflexivity. Qed.
+
+Lemma header_is_remaining_at_send_lemma : forall h c dl,
+  c_deadline c = Some dl ->
+  call_header h c = encode_remaining (c_grpc c) (dl - c_sent_at c).
+Proof.
+  intros h c dl H. unfold call_header. rewrite H.
+  cbv [client_timeout_set_only_at_send duplex_on_request_send_inside_once
+       client_timeout_cleared_in_new_conn andb].
+  destruct (encode_remaining (c_grpc c) (dl - c_sent_at c)); reflexivity.
+Qed.
+
+(* Connect: a remaining time too large to express leaves no header at all, whatever was there *)
+Lemma inexpressible_sent_as_none_lemma : forall h c dl,
+  c_grpc c = false -> c_deadline c = Some dl ->
+  connect_encode_timeout (dl - c_sent_at c) = None ->
+  call_header h c = None.
+Proof.
+  intros h c dl Hg Hd He. rewrite (header_is_remaining_at_send_lemma h c dl Hd).
+  unfold encode_remaining. rewrite Hg. exact He.
+Qed.
+
+(* non-vacuity: the same header map through three calls — 5 s left, no deadline, 2 s left
+   with the stream created 1 s before its request was sent *)
+Example reuse_example :
+  run_calls (Some [x39]) [mkCcall false (Some 5000000000%Z) 0 0; mkCcall false None 0 0;
+                          mkCcall false (Some 3000000000%Z) 0 1000000000%Z]
+  = [Some [x35; x30; x30; x30]; None; Some [x32; x30; x30; x30]].
+Proof. vm_compute. reflexivity. Qed.
